@@ -3,7 +3,7 @@
 patch="$1"; shift
 wt=/tmp/ev_$$
 git -C /repo worktree add -q --detach $wt HEAD || exit 2
-trap 'git -C /repo worktree remove --force '$wt' >/dev/null 2>&1' EXIT INT TERM
+trap 'git -C /repo worktree remove --force '$wt' >/dev/null 2>&1; rm -rf /tmp/verif-eval/'$(basename $wt)'' EXIT INT TERM
 git -C $wt apply "$patch" || { echo "patch does not apply"; exit 2; }
 cd /verif
 for id in "$@"; do
